@@ -169,11 +169,39 @@ def _run_tree(ctx):
     return run_tree
 
 
+def _of_built(ctx, run_tree):
+    """Markers assembled with the public normalising constructors MultiMarker.of / MarkerUnion.of from parsed pieces:
+    nesting that parse / & / | never produce (a conjunction inside a union inside a conjunction ...)."""
+    rnd = ctx.rnd
+    cfg = MW.Cfg()
+    n = 250 if ctx.tier == "quick" else 4000
+
+    def piece(depth):
+        if depth == 0 or rnd.random() < 0.35:
+            return ["m", MW.text(rnd, cfg, rnd.choice([0, 0, 1]))]
+        kind = rnd.choice(["mof", "uof"])
+        return [kind] + [piece(depth - 1) for _ in range(rnd.randint(2, 3))]
+
+    for _ in range(n):
+        t = piece(3)
+        if t[0] == "m" or MW.tree_atoms(t) > 8:
+            continue
+        names = mentioned(t)
+        if not names:
+            continue
+        for _k in range(2):
+            sub = rnd.sample(names, rnd.randint(1, len(names)))
+            run_tree(["only", t, sub])
+            run_tree(["exclude", t, rnd.choice(names)])
+        ctx.shape("workload:of-built")
+
+
 def run(ctx):
     if ctx.shard == 0:  # the repository's own pinned examples as one more workload (outcomes ignored)
         from ..repotests import run_repo_tests
 
         run_repo_tests(ctx, ("marker",), before_each=lambda: setattr(ctx, 'env_budget', ctx.env_cap_top))
+    _of_built(ctx, _run_tree(ctx))
     run_trees(ctx, _run_tree(ctx), n_random=450 if ctx.tier == "quick" else 15000, max_atoms=7 if ctx.tier == "quick" else 9,
               unary_p=0.6, small_frac=0.4 if ctx.tier == "quick" else 1.0)
 
